@@ -470,7 +470,9 @@ def case_overlap(seed, out, spec, wd):
     t = 0
     for i in range(n):
         if i:
-            t += r.pick([0, 1, fp // 10 if fp else 5, fp - 1 if fp else 3, fp, fp + 1, fp * 3 // 2 + 7, fp * 2 + 100])
+            t += r.pick([0, 1, fp // 10 if fp else 5, fp - 1 if fp else 3, fp, fp + 1, fp * 3 // 2 + 7, fp * 2 + 100,
+                         -3, -1])
+            # (a small step backwards: a thread whose event began a little earlier reaches the limiter a little later)
         steps.append({'t_ms': max(t, 0), 'hold': r.chance(0.5), 'release_after': None})
     for i, st in enumerate(steps):
         if st['hold']:
@@ -547,6 +549,9 @@ def case_overlap(seed, out, spec, wd):
     if not got_ts:
         out.violation('ratelimit:due-hit-not-collected', 'no hit collected although the first one is within every limit',
                       witness, replay)
+    elif fc == -1 and fp == 0 and len(got_ts) != n and not stuck:
+        out.violation('ratelimit:due-hit-not-collected', 'unlimited tracepoint (fire_count=-1, fire_period=0): %d of %d '
+                                                         'hits collected' % (len(got_ts), n), witness, replay)
     open_overlaps = sum(1 for i, st in enumerate(steps) if st['hold'] and st['release_after'] is not None and
                         st['release_after'] > i)
     out.count('overlap_cases')
